@@ -383,11 +383,15 @@ func (o *Origins) isNonNilErrorAt(ev ssa.Value, r *ssa.Return) bool {
 		if _, isPtr := mi.X.Type().Underlying().(*types.Pointer); !isPtr {
 			return true
 		}
-		// pointer produced by a constructor that returns the address of a composite literal
+		// pointer produced by a constructor that returns the address of a composite literal - directly or through
+		// further constructors (dbError(...) wrapping BuildCashuError(...))
 		if c, ok := mi.X.(*ssa.Call); ok {
 			if f := c.Call.StaticCallee(); f != nil && returnsFreshPointer(f) {
 				return true
 			}
+		}
+		if okP, _ := ptrNeverNil(mi.X, 0); okP {
+			return true
 		}
 	}
 	if c, ok := ev.(*ssa.Call); ok {
